@@ -271,8 +271,8 @@ func (c *connection) SendPID(from gen.PID, to gen.PID, options gen.MessageOption
 		}
 	}
 
-	order := uint8(from.ID % 255)
-	orderPeer := uint8(to.ID % 255)
+	order := uint8(from.ID%255) + 1
+	orderPeer := uint8(to.ID%255) + 1
 	if options.KeepNetworkOrder == false {
 		order = uint8(0)
 		orderPeer = uint8(0)
@@ -333,7 +333,7 @@ func (c *connection) SendProcessID(from gen.PID, to gen.ProcessID, options gen.M
 		}
 	}
 
-	order := uint8(from.ID % 255)
+	order := uint8(from.ID%255) + 1
 	if options.KeepNetworkOrder == false {
 		order = uint8(0)
 	}
@@ -393,8 +393,8 @@ func (c *connection) SendAlias(from gen.PID, to gen.Alias, options gen.MessageOp
 		return gen.ErrProcessIncarnation
 	}
 
-	order := uint8(from.ID % 255)
-	orderPeer := uint8(to.ID[1] % 255)
+	order := uint8(from.ID%255) + 1
+	orderPeer := uint8(to.ID[1]%255) + 1
 	if options.KeepNetworkOrder == false {
 		order = uint8(0)
 		orderPeer = uint8(0)
@@ -462,7 +462,7 @@ func (c *connection) SendEvent(from gen.PID, options gen.MessageOptions, message
 		}
 	}
 
-	order := uint8(from.ID % 255)
+	order := uint8(from.ID%255) + 1
 	if options.KeepNetworkOrder == false {
 		order = uint8(0)
 	}
@@ -521,8 +521,8 @@ func (c *connection) SendExit(from gen.PID, to gen.PID, reason error) error {
 		return err
 	}
 
-	order := uint8(from.ID % 255)
-	orderPeer := uint8(to.ID % 255)
+	order := uint8(from.ID%255) + 1
+	orderPeer := uint8(to.ID%255) + 1
 
 	buf.B[0] = protoMagic
 	buf.B[1] = protoVersion
@@ -540,8 +540,8 @@ func (c *connection) SendResponse(from gen.PID, to gen.PID, options gen.MessageO
 	if to.Creation != c.peer_creation {
 		return gen.ErrProcessIncarnation
 	}
-	order := uint8(from.ID % 255)
-	orderPeer := uint8(to.ID % 255)
+	order := uint8(from.ID%255) + 1
+	orderPeer := uint8(to.ID%255) + 1
 	if options.KeepNetworkOrder == false {
 		order = uint8(0)
 		orderPeer = uint8(0)
@@ -583,8 +583,8 @@ func (c *connection) SendResponseError(from gen.PID, to gen.PID, options gen.Mes
 		return gen.ErrProcessIncarnation
 	}
 
-	order := uint8(from.ID % 255)
-	orderPeer := uint8(to.ID % 255)
+	order := uint8(from.ID%255) + 1
+	orderPeer := uint8(to.ID%255) + 1
 	if options.KeepNetworkOrder == false {
 		order = uint8(0)
 		orderPeer = uint8(0)
@@ -779,8 +779,8 @@ func (c *connection) CallPID(from gen.PID, to gen.PID, options gen.MessageOption
 		return gen.ErrProcessIncarnation
 	}
 
-	order := uint8(from.ID % 255)
-	orderPeer := uint8(to.ID % 255)
+	order := uint8(from.ID%255) + 1
+	orderPeer := uint8(to.ID%255) + 1
 	if options.KeepNetworkOrder == false {
 		order = uint8(0)
 		orderPeer = uint8(0)
@@ -842,7 +842,7 @@ func (c *connection) CallProcessID(from gen.PID, to gen.ProcessID, options gen.M
 		}
 	}
 
-	order := uint8(from.ID % 255)
+	order := uint8(from.ID%255) + 1
 	if options.KeepNetworkOrder == false {
 		order = uint8(0)
 	}
@@ -902,8 +902,8 @@ func (c *connection) CallAlias(from gen.PID, to gen.Alias, options gen.MessageOp
 		return gen.ErrProcessIncarnation
 	}
 
-	order := uint8(from.ID % 255)
-	orderPeer := uint8(to.ID[1] % 255)
+	order := uint8(from.ID%255) + 1
+	orderPeer := uint8(to.ID[1]%255) + 1
 	if options.KeepNetworkOrder == false {
 		order = uint8(0)
 		orderPeer = uint8(0)
@@ -952,8 +952,8 @@ func (c *connection) LinkPID(pid gen.PID, target gen.PID) error {
 	if target.Creation != c.peer_creation {
 		return gen.ErrProcessIncarnation
 	}
-	order := uint8(pid.ID % 255)
-	orderPeer := uint8(target.ID % 255)
+	order := uint8(pid.ID%255) + 1
+	orderPeer := uint8(target.ID%255) + 1
 	ref := c.core.MakeRef()
 	message := MessageLinkPID{
 		Source: pid,
@@ -979,8 +979,8 @@ func (c *connection) UnlinkPID(pid gen.PID, target gen.PID) error {
 	if target.Creation != c.peer_creation {
 		return gen.ErrProcessIncarnation
 	}
-	order := uint8(pid.ID % 255)
-	orderPeer := uint8(target.ID % 255)
+	order := uint8(pid.ID%255) + 1
+	orderPeer := uint8(target.ID%255) + 1
 	ref := c.core.MakeRef()
 	message := MessageUnlinkPID{
 		Source: pid,
@@ -1002,7 +1002,7 @@ func (c *connection) UnlinkPID(pid gen.PID, target gen.PID) error {
 }
 
 func (c *connection) LinkProcessID(pid gen.PID, target gen.ProcessID) error {
-	order := uint8(pid.ID % 255)
+	order := uint8(pid.ID%255) + 1
 	ref := c.core.MakeRef()
 	message := MessageLinkProcessID{
 		Source: pid,
@@ -1025,7 +1025,7 @@ func (c *connection) LinkProcessID(pid gen.PID, target gen.ProcessID) error {
 }
 
 func (c *connection) UnlinkProcessID(pid gen.PID, target gen.ProcessID) error {
-	order := uint8(pid.ID % 255)
+	order := uint8(pid.ID%255) + 1
 	ref := c.core.MakeRef()
 	message := MessageUnlinkProcessID{
 		Source: pid,
@@ -1051,8 +1051,8 @@ func (c *connection) LinkAlias(pid gen.PID, target gen.Alias) error {
 	if target.Creation != c.peer_creation {
 		return gen.ErrProcessIncarnation
 	}
-	order := uint8(pid.ID % 255)
-	orderPeer := uint8(target.ID[1] % 255)
+	order := uint8(pid.ID%255) + 1
+	orderPeer := uint8(target.ID[1]%255) + 1
 	ref := c.core.MakeRef()
 	message := MessageLinkAlias{
 		Source: pid,
@@ -1078,8 +1078,8 @@ func (c *connection) UnlinkAlias(pid gen.PID, target gen.Alias) error {
 	if target.Creation != c.peer_creation {
 		return gen.ErrProcessIncarnation
 	}
-	order := uint8(pid.ID % 255)
-	orderPeer := uint8(target.ID[1] % 255)
+	order := uint8(pid.ID%255) + 1
+	orderPeer := uint8(target.ID[1]%255) + 1
 	ref := c.core.MakeRef()
 	message := MessageUnlinkAlias{
 		Source: pid,
@@ -1101,7 +1101,7 @@ func (c *connection) UnlinkAlias(pid gen.PID, target gen.Alias) error {
 }
 
 func (c *connection) LinkEvent(pid gen.PID, target gen.Event) ([]gen.MessageEvent, error) {
-	order := uint8(pid.ID % 255)
+	order := uint8(pid.ID%255) + 1
 	ref := c.core.MakeRef()
 	message := MessageLinkEvent{
 		Source: pid,
@@ -1130,7 +1130,7 @@ func (c *connection) LinkEvent(pid gen.PID, target gen.Event) ([]gen.MessageEven
 }
 
 func (c *connection) UnlinkEvent(pid gen.PID, target gen.Event) error {
-	order := uint8(pid.ID % 255)
+	order := uint8(pid.ID%255) + 1
 	ref := c.core.MakeRef()
 	message := MessageUnlinkEvent{
 		Source: pid,
@@ -1156,7 +1156,7 @@ func (c *connection) MonitorPID(pid gen.PID, target gen.PID) error {
 		return gen.ErrProcessIncarnation
 	}
 	ref := c.core.MakeRef()
-	order := uint8(pid.ID % 255)
+	order := uint8(pid.ID%255) + 1
 	message := MessageMonitorPID{
 		Source: pid,
 		Target: target,
@@ -1181,7 +1181,7 @@ func (c *connection) DemonitorPID(pid gen.PID, target gen.PID) error {
 		return gen.ErrProcessIncarnation
 	}
 	ref := c.core.MakeRef()
-	order := uint8(pid.ID % 255)
+	order := uint8(pid.ID%255) + 1
 	message := MessageDemonitorPID{
 		Source: pid,
 		Target: target,
@@ -1202,7 +1202,7 @@ func (c *connection) DemonitorPID(pid gen.PID, target gen.PID) error {
 }
 
 func (c *connection) MonitorProcessID(pid gen.PID, target gen.ProcessID) error {
-	order := uint8(pid.ID % 255)
+	order := uint8(pid.ID%255) + 1
 	ref := c.core.MakeRef()
 	message := MessageMonitorProcessID{
 		Source: pid,
@@ -1224,7 +1224,7 @@ func (c *connection) MonitorProcessID(pid gen.PID, target gen.ProcessID) error {
 }
 
 func (c *connection) DemonitorProcessID(pid gen.PID, target gen.ProcessID) error {
-	order := uint8(pid.ID % 255)
+	order := uint8(pid.ID%255) + 1
 	ref := c.core.MakeRef()
 	message := MessageDemonitorProcessID{
 		Source: pid,
@@ -1250,8 +1250,8 @@ func (c *connection) MonitorAlias(pid gen.PID, target gen.Alias) error {
 		return gen.ErrProcessIncarnation
 	}
 	ref := c.core.MakeRef()
-	order := uint8(pid.ID % 255)
-	orderPeer := uint8(target.ID[1] % 255)
+	order := uint8(pid.ID%255) + 1
+	orderPeer := uint8(target.ID[1]%255) + 1
 	message := MessageMonitorAlias{
 		Source: pid,
 		Target: target,
@@ -1276,8 +1276,8 @@ func (c *connection) DemonitorAlias(pid gen.PID, target gen.Alias) error {
 		return gen.ErrProcessIncarnation
 	}
 	ref := c.core.MakeRef()
-	order := uint8(pid.ID % 255)
-	orderPeer := uint8(target.ID[1] % 255)
+	order := uint8(pid.ID%255) + 1
+	orderPeer := uint8(target.ID[1]%255) + 1
 	message := MessageDemonitorAlias{
 		Source: pid,
 		Target: target,
@@ -1298,7 +1298,7 @@ func (c *connection) DemonitorAlias(pid gen.PID, target gen.Alias) error {
 }
 
 func (c *connection) MonitorEvent(pid gen.PID, target gen.Event) ([]gen.MessageEvent, error) {
-	order := uint8(pid.ID % 255)
+	order := uint8(pid.ID%255) + 1
 	ref := c.core.MakeRef()
 	message := MessageMonitorEvent{
 		Source: pid,
@@ -1327,7 +1327,7 @@ func (c *connection) MonitorEvent(pid gen.PID, target gen.Event) ([]gen.MessageE
 }
 
 func (c *connection) DemonitorEvent(pid gen.PID, target gen.Event) error {
-	order := uint8(pid.ID % 255)
+	order := uint8(pid.ID%255) + 1
 	ref := c.core.MakeRef()
 	message := MessageDemonitorEvent{
 		Source: pid,
@@ -1355,7 +1355,7 @@ func (c *connection) RemoteSpawn(name gen.Atom, options gen.ProcessOptionsExtra)
 		return pid, gen.ErrNotAllowed
 	}
 
-	order := uint8(pid.ID % 255)
+	order := uint8(pid.ID%255) + 1
 	ref := c.core.MakeRef()
 
 	message := MessageSpawn{
@@ -2638,8 +2638,8 @@ func (c *connection) routeMessage(msg any) {
 			Error: err,
 			Ref:   m.Ref,
 		}
-		order := uint8(m.Target.ID % 255)
-		orderPeer := uint8(m.Source.ID % 255)
+		order := uint8(m.Target.ID%255) + 1
+		orderPeer := uint8(m.Source.ID%255) + 1
 		c.sendAny(result, order, orderPeer, gen.Compression{})
 
 	case MessageUnlinkPID:
@@ -2648,8 +2648,8 @@ func (c *connection) routeMessage(msg any) {
 			Error: err,
 			Ref:   m.Ref,
 		}
-		order := uint8(m.Target.ID % 255)
-		orderPeer := uint8(m.Source.ID % 255)
+		order := uint8(m.Target.ID%255) + 1
+		orderPeer := uint8(m.Source.ID%255) + 1
 		c.sendAny(result, order, orderPeer, gen.Compression{})
 
 	case MessageLinkProcessID:
@@ -2659,7 +2659,7 @@ func (c *connection) routeMessage(msg any) {
 			Ref:   m.Ref,
 		}
 		order := uint8(0)
-		orderPeer := uint8(m.Source.ID % 255)
+		orderPeer := uint8(m.Source.ID%255) + 1
 		c.sendAny(result, order, orderPeer, gen.Compression{})
 
 	case MessageUnlinkProcessID:
@@ -2669,7 +2669,7 @@ func (c *connection) routeMessage(msg any) {
 			Ref:   m.Ref,
 		}
 		order := uint8(0)
-		orderPeer := uint8(m.Source.ID % 255)
+		orderPeer := uint8(m.Source.ID%255) + 1
 		c.sendAny(result, order, orderPeer, gen.Compression{})
 
 	case MessageLinkAlias:
@@ -2678,8 +2678,8 @@ func (c *connection) routeMessage(msg any) {
 			Error: err,
 			Ref:   m.Ref,
 		}
-		order := uint8(m.Target.ID[1] % 255)
-		orderPeer := uint8(m.Source.ID % 255)
+		order := uint8(m.Target.ID[1]%255) + 1
+		orderPeer := uint8(m.Source.ID%255) + 1
 		c.sendAny(result, order, orderPeer, gen.Compression{})
 
 	case MessageUnlinkAlias:
@@ -2688,8 +2688,8 @@ func (c *connection) routeMessage(msg any) {
 			Error: err,
 			Ref:   m.Ref,
 		}
-		order := uint8(m.Target.ID[1] % 255)
-		orderPeer := uint8(m.Source.ID % 255)
+		order := uint8(m.Target.ID[1]%255) + 1
+		orderPeer := uint8(m.Source.ID%255) + 1
 		c.sendAny(result, order, orderPeer, gen.Compression{})
 
 	case MessageLinkEvent:
@@ -2700,7 +2700,7 @@ func (c *connection) routeMessage(msg any) {
 			Ref:    m.Ref,
 		}
 		order := uint8(0)
-		orderPeer := uint8(m.Source.ID % 255)
+		orderPeer := uint8(m.Source.ID%255) + 1
 		c.sendAny(result, order, orderPeer, gen.Compression{})
 
 	case MessageUnlinkEvent:
@@ -2710,7 +2710,7 @@ func (c *connection) routeMessage(msg any) {
 			Ref:   m.Ref,
 		}
 		order := uint8(0)
-		orderPeer := uint8(m.Source.ID % 255)
+		orderPeer := uint8(m.Source.ID%255) + 1
 		c.sendAny(result, order, orderPeer, gen.Compression{})
 
 	case MessageMonitorPID:
@@ -2719,8 +2719,8 @@ func (c *connection) routeMessage(msg any) {
 			Error: err,
 			Ref:   m.Ref,
 		}
-		order := uint8(m.Target.ID % 255)
-		orderPeer := uint8(m.Source.ID % 255)
+		order := uint8(m.Target.ID%255) + 1
+		orderPeer := uint8(m.Source.ID%255) + 1
 		c.sendAny(result, order, orderPeer, gen.Compression{})
 
 	case MessageDemonitorPID:
@@ -2729,8 +2729,8 @@ func (c *connection) routeMessage(msg any) {
 			Error: err,
 			Ref:   m.Ref,
 		}
-		order := uint8(m.Target.ID % 255)
-		orderPeer := uint8(m.Source.ID % 255)
+		order := uint8(m.Target.ID%255) + 1
+		orderPeer := uint8(m.Source.ID%255) + 1
 		c.sendAny(result, order, orderPeer, gen.Compression{})
 
 	case MessageMonitorProcessID:
@@ -2740,7 +2740,7 @@ func (c *connection) routeMessage(msg any) {
 			Ref:   m.Ref,
 		}
 		order := uint8(0)
-		orderPeer := uint8(m.Source.ID % 255)
+		orderPeer := uint8(m.Source.ID%255) + 1
 		c.sendAny(result, order, orderPeer, gen.Compression{})
 
 	case MessageDemonitorProcessID:
@@ -2750,7 +2750,7 @@ func (c *connection) routeMessage(msg any) {
 			Ref:   m.Ref,
 		}
 		order := uint8(0)
-		orderPeer := uint8(m.Source.ID % 255)
+		orderPeer := uint8(m.Source.ID%255) + 1
 		c.sendAny(result, order, orderPeer, gen.Compression{})
 
 	case MessageMonitorAlias:
@@ -2759,8 +2759,8 @@ func (c *connection) routeMessage(msg any) {
 			Error: err,
 			Ref:   m.Ref,
 		}
-		order := uint8(m.Target.ID[1] % 255)
-		orderPeer := uint8(m.Source.ID % 255)
+		order := uint8(m.Target.ID[1]%255) + 1
+		orderPeer := uint8(m.Source.ID%255) + 1
 		c.sendAny(result, order, orderPeer, gen.Compression{})
 
 	case MessageDemonitorAlias:
@@ -2769,8 +2769,8 @@ func (c *connection) routeMessage(msg any) {
 			Error: err,
 			Ref:   m.Ref,
 		}
-		order := uint8(m.Target.ID[1] % 255)
-		orderPeer := uint8(m.Source.ID % 255)
+		order := uint8(m.Target.ID[1]%255) + 1
+		orderPeer := uint8(m.Source.ID%255) + 1
 		c.sendAny(result, order, orderPeer, gen.Compression{})
 
 	case MessageMonitorEvent:
@@ -2781,7 +2781,7 @@ func (c *connection) routeMessage(msg any) {
 			Ref:    m.Ref,
 		}
 		order := uint8(0)
-		orderPeer := uint8(m.Source.ID % 255)
+		orderPeer := uint8(m.Source.ID%255) + 1
 		c.sendAny(result, order, orderPeer, gen.Compression{})
 
 	case MessageDemonitorEvent:
@@ -2791,7 +2791,7 @@ func (c *connection) routeMessage(msg any) {
 			Ref:   m.Ref,
 		}
 		order := uint8(0)
-		orderPeer := uint8(m.Source.ID % 255)
+		orderPeer := uint8(m.Source.ID%255) + 1
 		c.sendAny(result, order, orderPeer, gen.Compression{})
 
 	case MessageSpawn:
@@ -2806,7 +2806,7 @@ func (c *connection) routeMessage(msg any) {
 			Ref:    m.Ref,
 		}
 		order := uint8(0)
-		orderPeer := uint8(m.Options.ParentPID.ID % 255)
+		orderPeer := uint8(m.Options.ParentPID.ID%255) + 1
 		c.sendAny(result, order, orderPeer, gen.Compression{})
 
 	case MessageApplicationStart:
